@@ -286,11 +286,11 @@ def _filled_before_continue(f, loop, dname):
     return True, 'ok'
 
 
-def _r10_2(ctx, R):
+def _r10_2(ctx, R, RULE='R10.2'):
     prog = ctx.prog
     f = prog.func('placement.objects.allocation:_set_allocations')
     g = cfgmod.cfg_of(f)
-    R.ob('R10.2', '_set_allocations:writer-scope',
+    R.ob(RULE, '_set_allocations:writer-scope',
          ctx.effects.scope_kind(f) == 'writer',
          '_set_allocations runs in its own writer scope',
          [d.qname for d in f.decorators], func=f)
@@ -313,36 +313,36 @@ def _r10_2(ctx, R):
                 rp_loop, rp_map = lp, d
             else:
                 cons_loop, cons_map = lp, d
-    R.ob('R10.2', '_set_allocations:provider-increment-loop',
+    R.ob(RULE, '_set_allocations:provider-increment-loop',
          rp_loop is not None,
          'for rp in <map returned by _check_capacity_exceeded>.values(): '
          'rp.increment_generation()', 'found' if rp_loop else 'not found',
          func=f, node=rp_loop)
-    R.ob('R10.2', '_set_allocations:consumer-increment-loop',
+    R.ob(RULE, '_set_allocations:consumer-increment-loop',
          cons_loop is not None,
          'for consumer in <visited consumers>.values(): '
          'consumer.increment_generation()',
          'found' if cons_loop else 'not found', func=f, node=cons_loop)
     ins = [e for e in ctx.effects.direct[f]
            if e.op == 'I' and e.table == 'allocations']
-    R.ob('R10.2', '_set_allocations:insert-site', len(ins) == 1,
+    R.ob(RULE, '_set_allocations:insert-site', len(ins) == 1,
          'one INSERT into allocations', '%d' % len(ins), func=f)
     for name, lp in (('provider', rp_loop), ('consumer', cons_loop)):
         if lp is None:
             continue
         ok = g.must_pass(cfgmod.ENTRY, cfgmod.EXIT, {lp})
-        R.ob('R10.2', '_set_allocations:%s-loop-on-all-paths' % name, ok,
+        R.ob(RULE, '_set_allocations:%s-loop-on-all-paths' % name, ok,
              'every normal path through _set_allocations passes the %s '
              'increment loop' % name, 'a path skips it' if not ok else 'ok',
              func=f, node=lp)
         ifs = C.guarding_ifs(lp, f.node)
-        R.ob('R10.2', '_set_allocations:%s-loop-unconditional' % name,
+        R.ob(RULE, '_set_allocations:%s-loop-unconditional' % name,
              not ifs, 'the loop is not nested under a condition',
              [src(i[0].test) for i in ifs], func=f, node=lp,
              nontrivial=False)
         for e in ins:
             ok2 = g.must_pass(e.stmt, cfgmod.EXIT, {lp})
-            R.ob('R10.2', '_set_allocations:%s-loop-after-insert' % name,
+            R.ob(RULE, '_set_allocations:%s-loop-after-insert' % name,
                  ok2, 'the %s increments follow the INSERTs' % name,
                  'ok' if ok2 else 'a path from the INSERT skips the loop',
                  func=f, node=lp, nontrivial=False)
@@ -370,7 +370,7 @@ def _r10_2(ctx, R):
                 fill_loops[0].target, ast.Name) else '?'
             if vals != ['%s.consumer' % tgt]:
                 okf, why = False, 'stores %s' % vals
-        R.ob('R10.2', '_set_allocations:visited-consumers-complete', okf,
+        R.ob(RULE, '_set_allocations:visited-consumers-complete', okf,
              'every allocation\'s consumer is recorded before any continue',
              why, func=f)
     # provider map filled for every allocation in the check
@@ -397,10 +397,10 @@ def _r10_2(ctx, R):
                                                 ast.Name) else '?'
             if vals != ['%s.resource_provider' % tgt]:
                 okc, why = False, 'stores %s' % vals
-    R.ob('R10.2', '_check_capacity_exceeded:provider-map-complete', okc,
+    R.ob(RULE, '_check_capacity_exceeded:provider-map-complete', okc,
          'the returned map holds the provider of every allocation, filled '
          'before any continue', why, func=chk)
-    R.count('R10.2', 1 if rp_loop is not None and cons_loop is not None
+    R.count(RULE, 1 if rp_loop is not None and cons_loop is not None
             else 0, 1)
 
 
